@@ -7,11 +7,15 @@ Ties (all on REAL compiled artefacts, built from the repo's working tree by harn
      GV_SCHED)  vs  the Lean driver's flattened-machine trace  vs  native Go;
   I1 `case N:` / `$s = N` skeleton of every flattened MiniGo function of P' vs `GV.Flat.flatten`;
   I2 `$f = {...}` list = `$restore` list, and it contains every identifier assigned in the function and every model local;
-  I3 `Decl.Blocking` of every function of P and P' vs `GV.Blocking.blocking` on the generated call graph;
+  I3 `Decl.Blocking` of every function of P and P' — in multi-package programs also of every instance of the generic
+     functions / methods of the imported package `lib` (instantiated with types of package main whose methods yield only
+     through chains of named calls declared callers-first) — vs `GV.Blocking.blocking` (least fixed point) on the
+     generated whole-program call graph;
   I4 the variables boxed by `x = [x];` in every generated function of P and P' vs `GV.Escape.boxed` (escape-analysis rule).
 """
 import json
 import re
+import shutil
 
 from . import common as C
 
@@ -20,7 +24,8 @@ THEOREMS = ["propagate_lfp", "propagate_order_irrelevant", "flatten_labels_nodup
             "erase_correct", "machine_exec_sound", "interp_sound", "return_resume", "return_reeval_counterexample",
             "panic_resume_counterexample", "panic_resume_partial", "flatten_correct_defer_partial", "callDefF_sound",
             "andor_flat", "args_order", "captured_cells_shared", "captured_write_visible", "boxing_rule_sufficient",
-            "boxing_header_skipped_counterexample", "args_order_all", "args_order_first_only_counterexample"]
+            "boxing_header_skipped_counterexample", "args_order_all", "args_order_first_only_counterexample",
+            "stops_early_underapprox", "partial_iteration_unsound"]
 
 MODV = 1009
 ZERO = 12          # pseudo variable: constant 0
@@ -28,6 +33,10 @@ LEAF_KINDS = ["direct", "method", "ptrmethod", "methodvalue", "methodexpr", "ifa
               "defer", "deferpanic", "deferdirect", "embedded"]
 DYNAMIC_LEAF = {"methodvalue", "iface", "funcvalue", "closure"}       # intrinsically blocking call sites
 FN_KINDS = ["direct", "direct", "funcvalue", "method"]
+# multi-package programs only: generic function / method of a generic type / generic calling a generic, all declared in
+# the IMPORTED package `lib` and instantiated with a type of package main whose method Step yields transitively
+X_KINDS = ["xfunc", "xmethod", "xvia"]
+X_DECL = {"xfunc": "lib.Apply<W%d>", "xmethod": "lib.Box.Run<W%d>", "xvia": "lib.ApplyVia<W%d>"}
 
 
 def vname(v):
@@ -52,6 +61,8 @@ class Gen:
         self.fns = []       # dict(body, exprY, dfn)
         self.dops = []      # deferred closures: dict(ops, go)
         self.ncap = 0
+        self.mp = False     # multi-package program (package main + generic package lib)
+        self.wchains = []   # per type W_j of package main: number of named calls between Step and the yielding function
         self.plan = []      # plan[fi] = True: function fi is a D function (deferred calls, blocking return)
         self.kinds = {}
 
@@ -91,10 +102,14 @@ class Gen:
         return len(self.conds) - 1
 
     def new_leaf(self, arg=None, dst=None, k=None, go=None):
+        if go is None and self.mp and self.rng.random() < 0.5:
+            go = self.rng.choice(X_KINDS)
         go = go or self.rng.choice(LEAF_KINDS)
         self.count("leaf:" + go)
         c = dict(kind=0, callee=self.site(), arg=self.anyvar() if arg is None else arg,
                  dst=self.dstvar() if dst is None else dst, k=self.rng.randrange(0, 9) if k is None else k, go=go)
+        if go in X_KINDS:
+            c["w"] = self.rng.randrange(len(self.wchains))
         self.calls.append(c)
         return len(self.calls) - 1
 
@@ -477,8 +492,11 @@ class Gen:
         self.fns.append(dict(body=body, exprY=False, dfn=dfn))
 
 
-def gen_program(rng, size):
+def gen_program(rng, size, mp=None):
     g = Gen(rng, size)
+    if mp if mp is not None else rng.random() < 0.35:
+        g.mp = True
+        g.wchains = [rng.randrange(2, 5) for _ in range(rng.randrange(1, 3))]
     nf = rng.randrange(1, 5)
     g.plan = [fi > 0 and rng.random() < 0.45 for fi in range(nf)]
     for fi in range(nf):
@@ -541,6 +559,16 @@ def call_graph(g, with_yields):
         edges.append(("main.leafDeferDirect", "main.yield"))
         edges.append(("main.bumpD", "main.yield"))
         edges.append(("main.cell.Bump", "main.yield"))
+    for j, depth in enumerate(g.wchains):
+        # lib instances -> W_j.Step -> chain of named calls (declared callers first) -> yield
+        edges.append(("lib.Apply<W%d>" % j, "main.W%d.Step" % j))
+        edges.append(("lib.Box.Run<W%d>" % j, "main.W%d.Step" % j))
+        edges.append(("lib.ApplyVia<W%d>" % j, "lib.Apply<W%d>" % j))
+        chain = ["main.W%d.Step" % j, "main.W%d.rec" % j] + ["main.chk%d_%d" % (j, i) for i in range(1, depth)]
+        for a, b in zip(chain, chain[1:]):
+            edges.append((a, b))
+        if with_yields:
+            edges.append((chain[-1], "main.yield"))
     edges.append(("main.leafDefer", "main.leafDefer$lit"))
     edges.append(("main.leafDefer$lit", "main.leafD"))
     edges.append(("main.leafDeferPanic", "main.leafDeferPanic$lit"))
@@ -575,7 +603,9 @@ def call_graph(g, with_yields):
             if s[0] == "C":
                 c = g.calls[s[1]]
                 if c["kind"] == 0:
-                    if c["go"] in DYNAMIC_LEAF:
+                    if c["go"] in X_KINDS:
+                        edges.append((me, X_DECL[c["go"]] % c["w"]))
+                    elif c["go"] in DYNAMIC_LEAF:
                         intr.add(me)
                     else:
                         edges.append((me, LEAF_DECL[c["go"]]))
@@ -953,9 +983,10 @@ func schedString() string { return os.Getenv("GV_SCHED") }
 
 
 class Render:
-    def __init__(self, g, yields):
+    def __init__(self, g, yields, mod=None):
         self.g = g
         self.y = yields
+        self.mod = mod or "gvprog"
         self.out = []
         self.nm = {}        # slot -> Go name override inside capture loops
 
@@ -1050,6 +1081,12 @@ class Render:
             return "leafDeferDirect(%s)" % args
         if go == "embedded":
             return "etv.M(%s)" % args
+        if go == "xfunc":
+            return "lib.Apply(w%d, %s)" % (c["w"], args)
+        if go == "xvia":
+            return "lib.ApplyVia(w%d, %s)" % (c["w"], args)
+        if go == "xmethod":
+            return "bx%d.Run(%s)" % (c["w"], args)
         raise AssertionError(go)
 
     def call(self, cid, ind, simple=False):
@@ -1225,8 +1262,23 @@ class Render:
         g = self.g
         Y = "yield(site)" if self.y else "_ = site"
         ybody = "\tif enabled[i] {\n\t\truntime.Gosched()\n\t}" if self.y else "\t_ = i"
-        src = PRELUDE % dict(imports='import "runtime"' if self.y else "", yieldbody=ybody, Y=Y)
+        imps = (['"runtime"'] if self.y else []) + (['"%s/lib"' % self.mod] if g.mp else [])
+        src = PRELUDE % dict(imports="import (\n\t%s\n)" % "\n\t".join(imps) if imps else "", yieldbody=ybody, Y=Y)
         self.out = [src]
+        for j, depth in enumerate(g.wchains):
+            # callers are declared BEFORE their callees: the blocking analysis needs one pass per link of the chain
+            names = ["chk%d_%d" % (j, i) for i in range(1, depth)]
+            self.emit(0, "type W%d struct{ pad int }" % j)
+            self.emit(0, "")
+            self.emit(0, "var w%d = &W%d{}" % (j, j))
+            self.emit(0, "var bx%d = &lib.Box[*W%d]{Elem: w%d}" % (j, j, j))
+            self.emit(0, "")
+            self.emit(0, "func (w *W%d) Step(site, x, k int) int { return w.rec(site, x, k) }" % j)
+            self.emit(0, "func (w *W%d) rec(site, x, k int) int { return %s(site, x, k+w.pad) }" % (j, names[0]))
+            for a, b in zip(names, names[1:]):
+                self.emit(0, "func %s(site, x, k int) int { return %s(site, x, k) }" % (a, b))
+            self.emit(0, "func %s(site, x, k int) int { %s; return (x + k) %% 1009 }" % (names[-1], Y))
+            self.emit(0, "")
         for fi, f in enumerate(g.fns):
             if f["dfn"]:
                 d = f["dfn"]
@@ -1268,8 +1320,40 @@ class Render:
         return "\n".join(self.out) + "\n"
 
 
-def render(g, yields):
-    return {"main.go": Render(g, yields).program(), "sched_js.go": SCHED_JS, "sched_native.go": SCHED_NATIVE}
+LIB_GO = """// Package lib is a generic helper library; it does not import the packages whose types it is instantiated with.
+package lib
+
+type Stepper interface {
+	Step(site, x, k int) int
+}
+
+func Apply[T Stepper](s T, site, x, k int) int {
+	r := s.Step(site, x, k)
+	return r % 1009
+}
+
+func ApplyVia[T Stepper](s T, site, x, k int) int {
+	r := Apply(s, site, x, k)
+	return r
+}
+
+type Box[T Stepper] struct {
+	Elem T
+	Bias int
+}
+
+func (b *Box[T]) Run(site, x, k int) int {
+	v := b.Elem.Step(site, x, k) + b.Bias
+	return v % 1009
+}
+"""
+
+
+def render(g, yields, mod=None):
+    files = {"main.go": Render(g, yields, mod).program(), "sched_js.go": SCHED_JS, "sched_native.go": SCHED_NATIVE}
+    if g.mp:
+        files["lib/lib.go"] = LIB_GO
+    return files
 
 
 # --------------------------------------------------------------------------------------
@@ -1304,7 +1388,13 @@ _PKGVAR = re.compile(r"^(g\d|ifc|fv|clo|tv|ptv|etv|enabled|fF\d+)$")
 def norm_name(n):
     n = n[5:] if n.startswith("func:") else n
     n = "main." + n[2:] if n.startswith("..") else n
+    n = re.sub(r"gvp\w+?[pq]/lib\.", "lib.", n)          # GOPATH mode: <mod>/lib.X, <mod>.X
+    n = re.sub(r"gvp\w+?[pq]\.", "main.", n)
     n = re.sub(r"\(\*(\w+)\)", r"\1", n)
+    m = re.match(r"^(lib\.[\w.]+)<\*?main\.(W\d+)>$", n)
+    if m:
+        return "%s<%s>" % (m.group(1), m.group(2))         # instance of a lib generic with a type of package main
+    n = re.sub(r"<.*>$", "", n)
     return re.sub(r"\[.*\]$", "", n)
 
 
@@ -1369,17 +1459,32 @@ def schedules_for(g, rng, tier):
     return sorted(s), False
 
 
-def run_batch(chk, progs_, tier, rng, label, do_ities=True, sigfn=None, scheds_override=None):
+def run_batch(chk, progs_, tier, rng, label, do_ities=True, sigfn=None, scheds_override=None, gopath=False):
     from . import progs as PR
     jobs = []
     meta = []
     for idx, g in enumerate(progs_):
         scheds, exhaustive = schedules_for(g, rng, tier) if scheds_override is None else (scheds_override, True)
         pid = "%s%d" % (label, idx)
-        jobs.append({"id": pid, "p": render(g, False), "q": render(g, True), "schedules": scheds,
-                     "native": [scheds[-1]] if tier == "quick" else [scheds[0], scheds[-1]], "timeout": 60})
+        job = {"id": pid, "schedules": scheds,
+               "native": [scheds[-1]] if tier == "quick" else [scheds[0], scheds[-1]], "timeout": 60}
+        if gopath:
+            # programs with a second user package are resolved in GOPATH mode (see harness/cmd/gvh_c02)
+            job["mod"] = "gvp" + re.sub(r"[^a-z0-9]", "", pid.lower())
+            job["p"], job["q"] = render(g, False, job["mod"] + "p"), render(g, True, job["mod"] + "q")
+        else:
+            job["p"], job["q"] = render(g, False), render(g, True)
+        jobs.append(job)
         meta.append((pid, g, scheds, exhaustive))
-    p = C.run_gvh(["-j", "6"], [json.dumps(j) for j in jobs], name="gvh_c02", timeout=3000)
+    if gopath:
+        gp = C.scratch("gvc02gp")
+        try:
+            p = C.run_gvh(["-j", "6"], [json.dumps(j) for j in jobs], name="gvh_c02", timeout=3000,
+                          extra_env={"GOPATH": gp, "GO111MODULE": "off", "GOFLAGS": ""})
+        finally:
+            shutil.rmtree(gp, ignore_errors=True)
+    else:
+        p = C.run_gvh(["-j", "6"], [json.dumps(j) for j in jobs], name="gvh_c02", timeout=3000)
     if p.returncode != 0:
         raise RuntimeError("gvh_c02 failed: " + p.stderr[-3000:])
     results = [json.loads(l) for l in p.stdout.split("\n") if l.strip()]
@@ -1665,8 +1770,13 @@ def run(tier, seed):
         for k, v in g.kinds.items():
             chk.count(k, v)
     bs = 40
-    for i in range(0, len(progs_), bs):
-        run_batch(chk, progs_[i:i + bs], tier, chk.rng, "s%dp%d_" % (seed, i))
+    single = [g for g in progs_ if not g.mp]
+    multi = [g for g in progs_ if g.mp]
+    chk.extra["multi_package_programs"] = len(multi)
+    for i in range(0, len(single), bs):
+        run_batch(chk, single[i:i + bs], tier, chk.rng, "s%dp%d_" % (seed, i))
+    for i in range(0, len(multi), bs):
+        run_batch(chk, multi[i:i + bs], tier, chk.rng, "s%dm%d_" % (seed, i), gopath=True)
     # replay of the recorded defect (and its non-suspending twin, which must behave)
     run_batch(chk, [witness_panic_program()], tier, chk.rng, "witpanic", do_ities=False, scheds_override=["0", "1"])
     replay_stack_witness(chk)
@@ -1674,13 +1784,13 @@ def run(tier, seed):
     if chk.tie_breaks and not unknown and tier == "quick":
         # an internal tie broke: widen the observable-level search before reporting
         C.log("[C02] internal tie broken (%s); widening the program search" % sorted(chk.tie_breaks))
-        more = []
-        while len(more) < 40:
-            g = gen_program(chk.rng, chk.rng.choice([10, 16, 24]))
-            if 0 < g.nsites <= 40:
-                more.append(g)
-        for i in range(0, len(more), bs):
-            run_batch(chk, more[i:i + bs], "quick", chk.rng, "w%dp%d_" % (seed, i), do_ities=False)
+        for mpflag, lab_ in ((False, "w"), (True, "x")):
+            more = []
+            while len(more) < 20:
+                g = gen_program(chk.rng, chk.rng.choice([10, 16, 24]), mp=mpflag)
+                if 0 < g.nsites <= 40:
+                    more.append(g)
+            run_batch(chk, more, "quick", chk.rng, "%s%dp_" % (lab_, seed), do_ities=False, gopath=mpflag)
     chk.extra["programs"] = len(progs_)
     chk.extra["exhaustive"] = False
     chk.extra["exhaustive_subspace"] = "all yield subsets for programs with <= %d sites" % (6 if tier == "thorough" else 4)
